@@ -581,6 +581,10 @@ func parseHex(s string) (int64, bool) {
 }
 
 func parseChar(s string) (int64, bool) {
+	// パーサーは引用符を取り除いた中身だけを CharFactor.Value に入れる ('a' -> a)
+	if len(s) == 1 {
+		return int64(s[0]), true
+	}
 	if len(s) < 2 || s[0] != '\'' || s[len(s)-1] != '\'' {
 		return 0, false
 	}
